@@ -1240,6 +1240,7 @@ def c12_streams(ctx):
         for src in ("gg", "ga", "pv", "pg", "pyc") + (("gc",) if gc else ()):
             want = "pass" if removed_by(src, on) else "ign"
             if src == "gg" and gc and not (on[1] or on[5]): want = "pass"     # the project's own core.excludesFile replaces the global git excludes
+            if src == "gg" and f[1] == "3": want = "pass"                      # no VCS marker at the origin: the global git excludes are not a source of this project at all
             if a.get(src) != want: return f"flags [{' '.join(n for n, o in zip(flags, on) if o)}]{' (project git config)' if gc else ''}: probe owned by source `{src}` is {a.get(src)}, the flags say {want}"
         for lab, want in (("ex", "ign"), ("ip", "ign"), ("ok", "pass")):
             if a.get(lab) != want: return f"flags [{' '.join(n for n, o in zip(flags, on) if o)}]: explicit option probe `{lab}` is {a.get(lab)}, expected {want} whatever the flags"
@@ -1251,14 +1252,14 @@ def c12_streams(ctx):
     s = simple_stream("C12", "cli-flags", "cli", "wxflags", [], ["flags"], oracle=oracle,
                       nontrivial=lambda c, obs: True, classify=lambda c, obs: ["gitcfg=" + c.split("\t")[1], "sources-active=" + str(obs.split("|")[0].count(":ign"))])
     s.exhaustive = True
-    s.note = ("exhaustive: all 64 combinations of the six flags x 2 fixture projects (with / without a project-level core.excludesFile) x 5 explicit-option variants (--ignore-file + --ignore, "
+    s.note = ("exhaustive: all 64 combinations of the six flags x 4 fixtures (a git project; one with a project-level core.excludesFile; the first one started from a subdirectory; one WITHOUT a VCS marker that ships a .gitignore) x 5 explicit-option variants (--ignore-file + --ignore, "
               "--filter + --ignore-file, --filter-file, --exts + --ignore, --fs-events); fixture: global git ignore and global application ignore through HOME / XDG_CONFIG_HOME, project "
               ".gitignore and .ignore, paths hit by the built-in defaults; the real WatchexecFilterer::new(args_from(argv)) (hook H1) is probed with one event per source")
     return [s]
 
 PLANS["C12"] = dict(
     modules=["Wx.Cli.C12"],
-    theorems=["C12.c12_explicit_always", "C12.c12_flags_effective", "C12.c12_exact", "C12.c12_exact_gitcfg", "C12.c12_explicit_all", "C12.c12_fixed_0", "C12.c12_today_52"],
+    theorems=["C12.c12_explicit_always", "C12.c12_flags_effective", "C12.c12_exact", "C12.c12_exact_gitcfg", "C12.c12_exact_novcs", "C12.c12_explicit_all", "C12.c12_fixed_0", "C12.c12_today_52"],
     bins=[("cli", ["wxflags"])],
     streams=c12_streams,
     sources=["crates/cli/src/filterer.rs", "crates/cli/src/dirs.rs", "crates/cli/src/args/filtering.rs"],
@@ -1278,6 +1279,9 @@ def quit_cases(seed, n):
         "q_deleted g:15:100 10 I~n:start;y;n:delete/I~n:start", "q_never g:15:100 0 I~/F,I~n:start", "q_three g:15:200 30 I~n:start/I~n:start/I~n:start",
         "q_f4 g:15:50 100 I,E1000,I~n:start;y;n:gtryrestart:15:20", "q_grace0 g:9:0 5 I~n:start", "q_abort_timer abort 21 I,I~n:start;y;n:gtryrestart:2:500",
         # jobs created and started inside the very action that requests the quit (`+`)
+        # controls sent from INSIDE the quitting action, just before the quit (`!`): the job is still on its way out when the worker's quit reaches it
+        "i_del g:15:500 100 I~n:start;y!n:delete", "i_del_abort abort 100 I~n:start;y!n:delete;n:start", "i_delnow g:15:300 20 I~n:start;y!n:deletenow/I~n:start",
+        "i_gstop g:15:100 10 I~n:start;y!n:gstop:2:300;n:delete", "i_restart g:15:50 0 S30,I~n:start;y!n:restart",
         "l_g g:15:100 50 I~n:start/+I~", "l_abort abort 50 I~n:start/+I~", "l_only g:15:40 10 +E500~", "l_only_abort abort 10 +I~", "l_two g:2:30 0 +S10~/+I~/F,I~n:start",
     ]
     out = list(fixed)
@@ -1298,7 +1302,9 @@ def quit_cases(seed, n):
             for _ in range(r.choice([0, 1, 1, 2, 3])):
                 ops.append(op())
                 if r.random() < 0.4: ops.append("y")
-            jobs.append(",".join(beh() for _ in range(r.randint(1, 3))) + "~" + ";".join(ops))
+            inact = ""
+            if r.random() < 0.2: inact = "!" + ";".join(op() for _ in range(r.randint(1, 2)))
+            jobs.append(",".join(beh() for _ in range(r.randint(1, 3))) + "~" + ";".join(ops) + inact)
         for _ in range(r.choice([0, 0, 0, 1, 1, 2])):
             jobs.append("+" + ",".join(beh() for _ in range(r.randint(1, 2))) + "~")
         manner = "abort" if r.random() < 0.25 else f"g:{r.choice([15, 2, 9, 10])}:{r.choice([0, 40, 100, 300])}"
@@ -1325,9 +1331,12 @@ def c08_streams(ctx):
         for ji, j in enumerate(jobs.split("/")):
             late = j.startswith("+")
             behs, ops = j.lstrip("+").split("~")
+            ops, _, inact = ops.partition("!")
             ops = [o for o in ops.split(";") if o]
-            # a late job is created and started by the quitting action itself: Start is queued just before the quit's controls
-            tail = [f"a:{adv}"] + (["n:start"] if late else []) + (["y"] if late and manner == "abort" else []) + ([] if manner == "abort" else [f"n:gstop:{manner.split(':')[1]}:{manner.split(':')[2]}", "n:delete", "a:3000"])
+            # a late job is created and started by the quitting action itself: Start is queued just before the quit's controls;
+            # in-action controls (`!`) are queued there too, without the task getting a turn in between
+            # (an abort follows the action at once: the job task gets no turn between the in-action controls and its own abort)
+            tail = [f"a:{adv}"] + ([o for o in inact.split(";") if o] if manner != "abort" else []) + (["n:start"] if late else []) + (["y"] if late and manner == "abort" else []) + ([] if manner == "abort" else [f"n:gstop:{manner.split(':')[1]}:{manner.split(':')[2]}", "n:delete", "a:3000"])
             jl.append(f"{cid}.{ji} {behs} {';'.join(ops + tail)}")
     (d / "jobs.txt").write_text("\n".join(jl) + "\n")
     ok, err = core.run_driver(["job", "all"], d / "jobs.txt", d / "model.txt")
@@ -1389,7 +1398,7 @@ def c08_streams(ctx):
             g = int(manner.split(":")[2])
             pend = 0
             for j in jobs.split("/"):
-                graces = [int(o.split(":")[3]) for o in j.split("~")[1].split(";") if o.split(":")[1:2] and o.split(":")[1] in ("gstop", "grestart", "gtryrestart")]
+                graces = [int(o.split(":")[3]) for o in j.split("~")[1].replace("!", ";").split(";") if o.split(":")[1:2] and o.split(":")[1] in ("gstop", "grestart", "gtryrestart")]
                 pend = max(pend, sum(graces))
             if took > pend + g: s.oracle_failures.append((i, c, im, f"graceful quit took {took} ms, more than the grace periods in effect ({pend} ms pending + {g} ms of the quit)"))
         s.bump("abort" if manner == "abort" else "graceful"); s.bump(f"jobs={njobs}")
